@@ -2,6 +2,7 @@ package main
 
 import (
 	"fmt"
+	"go/token"
 	"sort"
 	"strings"
 
@@ -84,6 +85,7 @@ func runC12(r *Run) {
 	r.Rule("C12.3", "StepTimer and CancelTimer are assigned together: both results of one RoundTimer call or both nil; RoundTimer methods are invoked only by the state machine")
 	r.Rule("C12.4", "production timer: in the running phase a start request may panic only behind a non-blocking check that the cancel channel has not been closed (cancel-then-start never fails under any schedule)")
 	r.Rule("C12.5", "production timer: the elapsed channel is closed only in the timer-fired case; cancel closes its channel at most once (sync.Once)")
+	r.Rule("C12.6", "production timer: after the time.Timer value has been received, no path waits on that channel again before the timer is re-armed (a second drain blocks forever and wedges every later request)")
 
 	ar := exploreStateMachine(w)
 	if len(ar.entries) == 0 {
@@ -304,6 +306,125 @@ func runC12(r *Run) {
 	}
 	if nclose == 0 {
 		r.Fail("C12.5", "tmstate.StandardRoundTimer.background#close-elapsed", w.Pos(bg.Pos()), "the elapsed channel is never closed")
+	}
+	// C12.6: timer.C yields at most one value per arming. Once the goroutine has received it, any
+	// further wait on timer.C (the running-phase select, or the Stop()-failed drain, which then
+	// blocks forever and wedges every later timer request) must come after the timer was re-armed.
+	rearm := func(in ssa.Instruction) bool {
+		c := callCommon(in)
+		if c == nil {
+			return false
+		}
+		if _, n := calleeName(c); n == "time.Timer.Reset" {
+			return true
+		}
+		if callee := c.StaticCallee(); callee != nil && callee.Parent() == bg {
+			hit := false
+			w.A(callee).Instrs(func(x ssa.Instruction) {
+				if cc := callCommon(x); cc != nil {
+					if _, n := calleeName(cc); n == "time.Timer.Reset" {
+						hit = true
+					}
+				}
+			})
+			return hit
+		}
+		// a call through a local closure variable
+		if mc, ok := c.Value.(*ssa.MakeClosure); ok {
+			if f, ok := mc.Fn.(*ssa.Function); ok {
+				hit := false
+				w.A(f).Instrs(func(x ssa.Instruction) {
+					if cc := callCommon(x); cc != nil {
+						if _, n := calleeName(cc); n == "time.Timer.Reset" {
+							hit = true
+						}
+					}
+				})
+				return hit
+			}
+		}
+		return false
+	}
+	waitsOnTimer := func(in ssa.Instruction) bool {
+		switch x := in.(type) {
+		case *ssa.Select:
+			for _, st := range x.States {
+				if isTimerC(st.Chan) {
+					return true
+				}
+			}
+		case *ssa.UnOp:
+			return x.Op == token.ARROW && isTimerC(x.X)
+		}
+		return false
+	}
+	nRecv := 0
+	for _, s := range sels {
+		for i, st := range s.States {
+			if !isTimerC(st.Chan) {
+				continue
+			}
+			// the block entered when case i was chosen
+			var start *ssa.BasicBlock
+			for _, b := range bg.Blocks {
+				if len(b.Instrs) == 0 {
+					continue
+				}
+				ifi, ok := b.Instrs[len(b.Instrs)-1].(*ssa.If)
+				if !ok {
+					continue
+				}
+				bo, ok := ifi.Cond.(*ssa.BinOp)
+				if !ok {
+					continue
+				}
+				ex, ok := bo.X.(*ssa.Extract)
+				if !ok || ex.Index != 0 || ex.Tuple != ssa.Value(s) {
+					continue
+				}
+				if k, ok := bo.Y.(*ssa.Const); ok {
+					if v, ok := constInt(k); ok && v == i {
+						start = b.Succs[0]
+					}
+				}
+			}
+			if start == nil {
+				continue
+			}
+			nRecv++
+			var bad ssa.Instruction
+			seen := map[*ssa.BasicBlock]bool{}
+			var walk func(b *ssa.BasicBlock)
+			walk = func(b *ssa.BasicBlock) {
+				if seen[b] || bad != nil {
+					return
+				}
+				seen[b] = true
+				for _, in := range b.Instrs {
+					if rearm(in) {
+						return
+					}
+					if waitsOnTimer(in) {
+						bad = in
+						return
+					}
+				}
+				for _, nb := range b.Succs {
+					walk(nb)
+				}
+			}
+			walk(start)
+			pos := w.InstrPos(s)
+			det := "after the timer's value was received, the goroutine waits on timer.C again only after re-arming it"
+			if bad != nil {
+				pos = w.InstrPos(bad)
+				det = "a path from the received timer value reaches another wait on timer.C without re-arming the timer: a drain there blocks forever (Stop reports false after the value was taken) and wedges the timer goroutine"
+			}
+			r.Check(bad == nil, "C12.6", fmt.Sprintf("tmstate.StandardRoundTimer.background#timer-value-received%d", nRecv), pos, det)
+		}
+	}
+	if nRecv == 0 {
+		r.Fail("C12.6", "tmstate.StandardRoundTimer.background#timer-value-received", w.Pos(bg.Pos()), "no receive from the time.Timer channel found")
 	}
 	// cancel closure: close under sync.Once
 	okOnce := false
